@@ -129,6 +129,61 @@ if sys.version_info >= (3, 11):
             return
 
 
+    def _with_handler_reaching(
+        co: types.CodeType, seq_start: int, seq_end: int
+    ) -> Optional[int]:
+        """Return the handler offset of the innermost ``with`` block that
+        contains an instruction from which control can reach the inlined
+        ``__exit__`` call sequence occupying offsets *seq_start* through
+        *seq_end* of *co*, or None if there is no such block.
+        """
+        code = co.co_code
+        op = dis.opmap
+        table = list(_parse_exception_table(co))
+        no_fallthrough = {
+            op[name]
+            for name in (
+                "JUMP_FORWARD",
+                "JUMP_BACKWARD",
+                "JUMP_BACKWARD_NO_INTERRUPT",
+                "RETURN_VALUE",
+                "RETURN_CONST",
+                "RAISE_VARARGS",
+                "RERAISE",
+            )
+            if name in op
+        }
+        predecessors = []
+        prev = None
+        for insn in dis.get_instructions(co):
+            if (
+                insn.offset == seq_start
+                and prev is not None
+                and prev.opcode not in no_fallthrough
+            ):
+                predecessors.append(prev.offset)
+            if insn.opcode in dis.hasjrel or insn.opcode in dis.hasjabs:
+                if seq_start <= insn.argval <= seq_end:
+                    predecessors.append(insn.offset)
+            prev = insn
+        for current in predecessors:
+            # Follow the chain of handlers that an exception raised at
+            # this instruction would visit, innermost first
+            for _ in range(len(table) + 1):
+                for start, end, target, *_ in table:
+                    if start <= current <= end:
+                        break
+                else:
+                    break
+                if (
+                    code[target] == op["PUSH_EXC_INFO"]
+                    and code[target + 2] == op["WITH_EXCEPT_START"]
+                ):
+                    return target
+                current = target
+        return None
+
+
 def currently_exiting_context(frame: types.FrameType) -> Optional[ExitingContext]:
     """If *frame* is currently suspended waiting for one of its context
     managers' ``__exit__`` or ``__aexit__`` methods to complete, then
@@ -433,18 +488,21 @@ def currently_exiting_context(frame: types.FrameType) -> Optional[ExitingContext
             if not backtrack_over_load_none():
                 return None
         # offs is now the instruction right before the first LOAD_CONST.
-        # We expect this to be the last instruction that is covered
-        # by the exception handler block that unwinds to call this context's
-        # __exit__ in the exception case. Possible exceptions to that rule:
-        # - sometimes there's a SWAP before the LOAD_CONSTs
-        # - if the with stmt has no body, there might be a NOP to attach
-        #   line number information to
-        # Neither of these are covered by the exception handler block.
-        for _, end, target, *_ in _parse_exception_table(frame.f_code):
-            if end == offs or (
-                end == offs - 2 and code[offs] in (op["SWAP"], op["NOP"])
-            ):
-                return ExitingContext(is_async=is_async, cleanup_offset=target)
+        # The instructions that can transfer control to this __exit__ call
+        # sequence (by falling into it or by jumping to it) lie inside the
+        # 'with' block being exited, so they are covered by the exception
+        # handler that calls this context's __exit__ in the exception case,
+        # possibly via the handlers of try blocks nested inside the 'with'.
+        # Between them and the LOAD_CONSTs there might be
+        # - a SWAP (when returning a value)
+        # - NOPs that only carry line number information
+        # which are not covered by the exception handler block.
+        seq_end = offs + 2
+        while offs > 0 and code[offs] in (op["SWAP"], op["NOP"]):
+            offs -= 2
+        target = _with_handler_reaching(frame.f_code, offs + 2, seq_end)
+        if target is not None:
+            return ExitingContext(is_async=is_async, cleanup_offset=target)
         warnings.warn(
             f"Surprise during analysis of {frame.f_code!r}: couldn't find an "
             f"exception table entry ending at {offs} just before the call to "
